@@ -31,7 +31,7 @@ ASSUMPTIONS = ["'reported' means validate()/check_for_errors raises (any excepti
                "default-logger identity is read from eliot._output._DEFAULT_LOGGER in addition to the behavioural probe"]
 BATCH = 250
 
-FIELD_KINDS = ["types", "value", "ser_str", "ser_validating", "extra_validator"]
+FIELD_KINDS = ["types", "value", "ser_str", "ser_validating", "extra_validator", "subclass_validate"]
 MSG_KINDS = ["message", "action_start", "action_success", "action_failed", "traceback"]
 DEVIATIONS = ["none", "none", "missing", "extra", "wrong_type", "rejected", "unencodable"]
 EXTRA_NAMES = ["exception", "reason", "message_type", "action_status", "action_type", "traceback", "extra", "errno", "zzz", "Task_uuid", "task-uuid"]
@@ -76,6 +76,17 @@ def must_be_even(v):
         raise ValidationError(v, "must be even")
 
 
+class PortField(Field):
+    """An application's Field subclass whose validate() override holds the rule (the constructor's function accepts anything)."""
+
+    def __init__(self, key):
+        Field.__init__(self, key, (lambda v: v), "d")
+
+    def validate(self, input):
+        if type(input) is not int or not 0 < input < 65536:
+            raise ValidationError(input, "not a port number")
+
+
 class FieldModel(object):
     def __init__(self, rng, key):
         self.key = key
@@ -90,6 +101,8 @@ class FieldModel(object):
             self.field = Field(key, str, "d")
         elif self.kind == "ser_validating":
             self.field = Field(key, is_nonneg_int, "d")
+        elif self.kind == "subclass_validate":
+            self.field = PortField(key)
         else:
             self.field = Field.for_types(key, [int], "d", extraValidator=must_be_even)
 
@@ -103,6 +116,8 @@ class FieldModel(object):
             return True
         if self.kind == "ser_validating":
             return isinstance(v, int) and v >= 0
+        if self.kind == "subclass_validate":
+            return type(v) is int and 0 < v < 65536
         return isinstance(v, int) and v % 2 == 0
 
     def good(self, rng):
@@ -116,6 +131,8 @@ class FieldModel(object):
             return rng.choice([gen.gen_scalar(rng), faults.Plain(), [1, 2], b"bytes"])
         if self.kind == "ser_validating":
             return rng.choice([0, 3, 2**40, True])
+        if self.kind == "subclass_validate":
+            return rng.choice([1, 80, 65535])
         return rng.choice([0, 2, -4, 10**12, False])
 
     def bad(self, rng):
@@ -136,6 +153,8 @@ class FieldModel(object):
             return False, None
         if self.kind == "ser_validating":
             return True, rng.choice([-1, "3", 2.0, None, [1]])
+        if self.kind == "subclass_validate":
+            return True, rng.choice([0, 65536, -1, 10**9])  # values only the override rejects
         return True, rng.choice([1, 3, -7, True])
 
 
